@@ -588,6 +588,102 @@ def rule_r17(ctx):
         raise AnalysisBroken("ws_apply_mask no longer works on ws_frame.buf in place")
 
 
+# ---------------------------------------------------------------------------
+# R18: measured first, then formatted into a buffer that holds the text and its terminator
+
+
+def rule_r18(ctx):
+    r = ctx.rule("C16.R18", "T1", "measured first, then formatted where it fits: where a function asks a formatter for the length it "
+                 "needs (a call with size 0) and then calls the same formatter with a buffer, the size it passes is that length "
+                 "plus one (a buffer allocated for it) or the call is reached only over the strict edge length < size -- with "
+                 "<= the head that is exactly as long as the fixed buffer loses its last byte to the terminator: the request / "
+                 "status head goes out without its final line feed and with a NUL byte in it", floor=2)
+    r.own_opinion = True
+    prog = ctx.prog
+    n = 0
+    for f in prog.functions:
+        if f.cfg_failed or f.file.endswith("_test.c"):
+            continue
+        byfn = {}
+        for c in f.calls():
+            if c.node.get("fn") and any(x in c.node["fn"] for x in ("snprintf",)):
+                byfn.setdefault(c.node["fn"], []).append(c)
+        for fn_, cs in byfn.items():
+            meas = [c for c in cs if any(a is not None and const_of(f.expand(a)) == 0 for a in c.node["args"][1:3]) and
+                    any(a is not None and is_null(f.expand(a)) for a in c.node["args"][0:2])]
+            if not meas:
+                continue
+            # the local that receives the measured length
+            lens = set()
+            for t in f.assigns():
+                if t.node["lhs"].get("k") == "var" and any(m.get("k") == "call" and m.get("fn") == fn_ for m in walk(f.expand(t.node["rhs"]))):
+                    lens.add(t.node["lhs"]["n"])
+            if not lens:
+                continue
+            for c in cs:
+                if c in meas:
+                    continue
+                args = [f.expand(a) if a is not None else None for a in c.node["args"]]
+                size = None
+                for a in args[1:]:
+                    if a is not None and (("size_t" in (a.get("t") or "")) or a.get("k") in ("bin", "mem", "var", "sizeof")) and not is_null(a) \
+                            and "char" not in (a.get("t") or "") and "*" not in (a.get("t") or ""):
+                        size = a
+                        break
+                if size is None:
+                    continue
+                n += 1
+                plus = size.get("k") == "bin" and size.get("op") == "+" and any(
+                    x.get("k") == "var" and x["n"] in lens for x in (size["lhs"], size["rhs"])) and any(
+                    (const_of(x) or 0) >= 1 for x in (size["lhs"], size["rhs"]))
+                same = size.get("k") == "var" and size["n"] in lens and any(
+                    t.node.get("k") == "un" and t.node.get("op") == "++" and t.node["e"].get("k") == "var" and t.node["e"]["n"] == size["n"]
+                    for t in f.sites())
+                def is_len(x, fn_=fn_, lens=lens):
+                    while x is not None and x.get("k") == "cast":
+                        x = x["e"]
+                    return x is not None and ((x.get("k") == "var" and x["n"] in lens) or (x.get("k") == "call" and x.get("fn") == fn_))
+                strict = G.rel_edges(f, is_len, lambda x: same_expr(x, size), "<")
+                if plus or same or (strict and G.dominated(f, (c.b, c.i), strict)):
+                    r.ob(f, "%s(.., %s) at line %s: the measured length fits with its terminator" % (fn_, show(size), c.line))
+                else:
+                    ctx.fail(r, f, "formatted into %s without room for the terminator" % show(size), c.line,
+                             "%s formats with %s into a buffer of %s bytes (line %s) without having established length < %s: "
+                             "a text of exactly that length is cut short by the terminating NUL" % (f.name, fn_, show(size), c.line, show(size)))
+    if n < 2:
+        raise AnalysisBroken("only %d measure-then-format pairs found" % n)
+
+
+# ---------------------------------------------------------------------------
+# R19: the read buffer is found full only after it was compacted
+
+
+def rule_r19(ctx):
+    r = ctx.rule("C16.R19", "T3", "the read buffer is full only when a single unfinished line fills it: in http_rd_buf every test of "
+                 "rd_put against bufsz (the over-long request line / header answer, 414 / 431) is preceded, with no store to "
+                 "rd_get / rd_put in between, by http_buf_pull_up, which moves the unparsed rest to the front -- tested before "
+                 "the compaction, a request whose lines were all parsed but whose last read happened to end at the end of the "
+                 "buffer is refused: 200 when it trickles in, 431 when it arrives in one piece", floor=1)
+    f = ctx.prog.need("http_rd_buf", "http/http_conn.c")
+    full = G.rel_edges(f, lambda x: x.get("k") == "mem" and x["f"] == "rd_put", lambda x: x.get("k") == "mem" and x["f"] == "bufsz", "==")
+    if not full:
+        raise AnalysisBroken("http_rd_buf: buffer-full test (rd_put == bufsz) not found")
+    pulls = {(c.b, c.i) for c in f.calls("http_buf_pull_up")}
+    moved = {(t.b, t.i) for t in f.assigns() if t.node["lhs"].get("k") == "mem" and t.node["lhs"]["f"] in ("rd_get", "rd_put")}
+    for b in sorted(full):
+        pos = (b, max(len(f.blocks[b].elems) - 1, 0))
+        # every way to the test comes from a pull-up, and no cursor store lies between the pull-up and the test
+        dom = bool(pulls) and f.dominated_by(pos, blocked=lambda bb, i, e: (bb, i) in pulls)
+        stale = any(pos in f.reach((mb, mi + 1), blocked=lambda bb, i, e: (bb, i) in pulls) for (mb, mi) in moved)
+        if dom and not stale:
+            r.ob(f, "buffer-full test at line %s follows the compaction" % f.line_of(*pos))
+        else:
+            ctx.fail(r, f, "buffer found full before it was compacted", f.line_of(*pos),
+                     "http_rd_buf compares rd_put with bufsz at line %s on a path that has not called http_buf_pull_up since the "
+                     "cursors last moved: space in front of the unparsed rest counts as used, and a legal request is answered "
+                     "431 / 414 depending on how its bytes were split across reads" % f.line_of(*pos))
+
+
 def run(ctx):
     ctx.guard(rule_r1)
     ctx.guard(rule_r2)
@@ -607,3 +703,5 @@ def run(ctx):
     ctx.guard(rule_r15)
     ctx.guard(rule_r16)
     ctx.guard(rule_r17)
+    ctx.guard(rule_r18)
+    ctx.guard(rule_r19)
